@@ -131,3 +131,12 @@ CASES += [
       "                self.RelaxationTensor = RTensor\n                self.has_RTensor = True\n                self.has_relaxation = True",
       "                self.has_RTensor = True\n                self.has_relaxation = True\n                self.RelaxationTensor = RTensor"),
 ]
+
+CASES += [
+    m("requested order not handed to the operator-form routine", "C02-J", P,
+      "            return self.__propagate_short_exp_with_rel_operators(rhoi, L=L)", "            return self.__propagate_short_exp_with_rel_operators(rhoi)"),
+    m("time-dependent operator-form routine called with the default order", "C02-J", P,
+      "            return self.__propagate_short_exp_with_TDrel_operators(rhoi,L=L)", "            return self.__propagate_short_exp_with_TDrel_operators(rhoi)"),
+    t("order handed on positionally", P,
+      "            return self.__propagate_short_exp_with_rel_operators(rhoi, L=L)", "            return self.__propagate_short_exp_with_rel_operators(rhoi, L)"),
+]
